@@ -229,13 +229,15 @@ def _cases_for(args):
         for listing in listings:
             obj = build(I, P, ranges, listing)
             for r in rpos:
-                sel = I.call(I.getattr(obj, "_range_search"), [Num(ep.const(r))], {})
-                if isinstance(sel, Const) and sel.v is None:
+                # through the public call: range i is the opaque function f_i, so the value names the selected range
+                val = I.num(I.call(obj, [Num(ep.const(r))], {}))
+                if val.is_zero():
                     lab = None
-                elif isinstance(sel, InstV):
-                    lab = I.getattr(sel, "potential_form").path[1]
                 else:
-                    raise AnalysisError("_range_search returned %r" % (sel,))
+                    hits = [nm for nm, _, _ in ranges if ep.equal(val, ep.app(("f", nm), [ep.const(r)]))[0]]
+                    if len(hits) != 1:
+                        raise AnalysisError("potential(%s) = %r names no single range" % (r, val))
+                    lab = hits[0]
                 ok_labels = oracle(ranges, r)
                 ncase += 1
                 if lab is not None:
